@@ -12,4 +12,4 @@ print(sorted(Counter((i['rule'], i['ok']) for i in R.items).items()))
 for i in R.items:
     if pref and not any(i['rule'].startswith(p) for p in pref) and i['ok']:
         continue
-    print('OK ' if i['ok'] else 'BAD', i['key'], '|', i['site'].split(' ')[0], '|', i['detail'][:230])
+    print('???' if i.get('undecided') else 'OK ' if i['ok'] else 'BAD', i['key'], '|', i['site'].split(' ')[0], '|', i['detail'][:230])
